@@ -16,25 +16,31 @@ META = {
                  "snapshot) is checked against a model of the declared dependencies and assignments replayed from the recorded operations",
     "level_text": "Random DAGs (2..30 Exec / host-to-host Comm / Io activities; chains, diamonds, wide fan-in, fan-out, layered, random) are "
                   "built through the API by maestro (operations between Engine::run_until calls) or by actors (ActivitySet::wait_any, "
-                  "sequential wait() in a random topological order, test() polling; helper actors assign / start / declare dependencies "
-                  "concurrently), with a random construction schedule: resources set before / after start(), at a later date, in the on_veto "
-                  "callback once the dependencies are solved, in the completion callback of another activity; start() explicit, late or left "
-                  "to the release by the last predecessor; dependencies declared before / after the start requests, later, in callbacks, "
-                  "declared then removed; zero-cost activities; dyadic durations so that branches tie exactly. The same for DAGs loaded by "
-                  "create_DAG_from_json / create_DAG_from_DAX from generated files. On every start record the checker requires that every "
-                  "predecessor declared at that moment has finished (completion signal seen or get_state()==FINISHED; completion date <= start "
-                  "date; get_finish_time <= get_start_time) and that the activity is assigned; at the end that every activity of a complete, "
-                  "failure-free scenario finished; and that an activity assigned no later than the latest finish date of its predecessors "
-                  "starts exactly then (1e-9 = precision/timing).",
+                  "sequential wait() in a random topological order, test() polling, one waiter actor per activity; helper actors assign / "
+                  "start / declare dependencies concurrently), with a random construction schedule: resources set before / after start(), at "
+                  "a later date, in the on_veto callback once the dependencies are solved, in the completion callback of another activity; "
+                  "start() explicit, late or left to the release by the last predecessor; dependencies declared before / after the start "
+                  "requests, later, in callbacks, declared then removed; zero-cost activities; dyadic durations so that branches tie exactly. "
+                  "The same for DAGs loaded by create_DAG_from_json / create_DAG_from_DAX from generated files (the dependencies declared by "
+                  "the file must be in the built DAG). On every start record the checker requires that every predecessor declared at that "
+                  "moment has finished (completion signal seen or get_state()==FINISHED; completion date <= start date; get_finish_time <= "
+                  "get_start_time; get_dependencies() empty) and that the activity is assigned; at the end that every activity of a complete, "
+                  "failure-free scenario finished (a livelock of the engine is detected in-harness, not by a watchdog); and that an activity "
+                  "assigned no later than the latest finish date of its predecessors starts exactly then (1e-9 = precision/timing).",
     "level_note": "The oracle never predicts a duration: it only compares recorded dates with each other. It does not demand exactly-once "
                   "signals nor an order between the completion signal of a predecessor and the start signal of its successor at the same date "
-                  "(SimGrid fires Comm::on_completion after the successors of a maestro-driven Comm were started: counted, not judged). "
-                  "Mailbox (put/get) Comms, parallel Execs and failures are not exercised; DOT loader not exercised (SimGrid built without "
-                  "graphviz). One DAX per process (the loader keeps static state). Plain and ASan+UBSan flavours (ASan runs are batched).",
+                  "(SimGrid fires Comm::on_completion after the successors of a maestro-driven Comm were started: counted, not judged). In "
+                  "the actor-driven modes 'finished' is the date at which the completion is processed (wait/test returns), which is when "
+                  "SimGrid releases the successors. The generated programs never let two actors operate on the same activity at once "
+                  "(starting an activity is not atomic in SimGrid: it spans a simcall). Mailbox (put/get) Comms, parallel Execs, Io streams "
+                  "and failures are not exercised; DOT loader not exercised (SimGrid built without graphviz). One DAX per process (the "
+                  "loader keeps static state). Plain and ASan+UBSan flavours (ASan runs are batched; scenarios ending with actors killed "
+                  "by the engine's deadlock handling run on the plain flavour only: ASan reports inside its own sigaltstack interceptor "
+                  "when the stack of a killed actor unwinds).",
     "rule": "case = one scenario (DAG + construction schedule + driver mode); non-trivial = distinct scenarios, fully checked, in which at "
             "least one activity asked to start before one of its predecessors finished (the veto really held it back)",
     "assumptions": ["DOT loader not exercised: SimGrid is built without graphviz here"],
-    "ready": False,
+    "ready": True,
 }
 
 CFGS = {
@@ -281,8 +287,8 @@ start e1
 E
 """,
     "known-zero-comm-late-start": """S known-zero-comm-late-start T
-new e E 1
 new c C 0
+new e E 1
 dep e c
 host e 0
 dst c 1
